@@ -205,6 +205,17 @@ def check_file(sh, fa, rng, case, recs, how, intervals=None):
                 sh.violation("schemaless-prefix-accepted", "%d-byte prefix of a %d-byte encoding returned %s" % (cut, len(enc), printable(got, 200)),
                              {"schema": js, "datum": recs[0], "cut": cut})
                 return
+        # the same value as the trailing field of a record that a reader schema drops (skip path)
+        wp = {"type": "record", "name": "VfWrap", "fields": [{"name": "keep", "type": "long"}, {"name": "post", "type": js}]}
+        rp = {"type": "record", "name": "VfWrap", "fields": [{"name": "keep", "type": "long"}]}
+        blob = b"\x04" + enc
+        for cut in range(1, len(blob)):
+            st, got = guard(fa.schemaless_reader, io.BytesIO(blob[:cut]), wp, rp)
+            sh.count("schemaless_prefixes_skip_path")
+            if st == "ok":
+                sh.violation("schemaless-prefix-accepted", "skip path: %d-byte prefix of a %d-byte encoding returned %s" % (cut, len(blob), printable(got, 200)),
+                             {"schema": js, "datum": recs[0], "cut": cut, "skip_path": True})
+                return
 
 
 def fixed_corpus(rng, shard):
